@@ -118,7 +118,7 @@ CLAIMED = {
     technique="Coq proof (Schur complement algebra, block determinant) + history execution against oracle",
     ref="DESIGN.md section 6, C13"),
  "C16": dict(
-    text="Coq theorem by complete enumeration (vm_compute, lifted with forallb_forall) of a shape table REGENERATED on every run from dead-code-eliminated jaxprs of 34 scalable entry points (incl. conditioning with banded / diagonal predictive noise and an alternative kernel): "
+    text="Coq theorem by complete enumeration (vm_compute, lifted with forallb_forall) of a shape table REGENERATED on every run from dead-code-eliminated jaxprs of 37 scalable entry points (incl. conditioning with banded / diagonal predictive noise and an alternative kernel): "
          "no intermediate has two data-sized dimensions and no shape inside a data-length loop body depends on N or T; a generic theorem then gives, for every N and T, that the total element count "
          "of each entry point is an affine function of (N, T). The dense covariance is a positive control that the same predicate rejects.",
     note="PARTIAL: faithfulness of jax.make_jaxpr/DCE to execution and the affine fit (five traces) are trusted; XLA may fuse or rematerialise. Binary-search loops of searchsorted contribute log-sized dimensions recorded as a constant bound 64.",
